@@ -233,7 +233,7 @@ pub fn run(r: &mut Runner) -> &'static str {
               2/3/4-byte character immediately before / after the first CR, TLV-shaped slices; every input goes through try_from(&[u8]), try_from(&str) + both FromStr impls (when UTF-8), the v2 parser, the \
               auto-detecting parser and TypeLengthValues::from, and then through every accessor / formatter / to_owned / iterator of whatever was returned. oracle: 'returned normally' (catch_unwind) and \
               items <= n/3 + 1 under a hard step cap. Two build configurations: release (no overflow checks) and checked (overflow checks + debug assertions). non-trivial = starts with PROXY, or carries the \
-              full v2 signature, or has a multi-byte character next to the first CR, or is a TLV slice with >= 1 complete item; distinct by SipHash"
+              full v2 signature, or has a multi-byte character next to the first CR, or is a TLV slice with >= 1 complete item; distinct by SipHash Added later: iterators also consumed through size_hint / collect / count / last / nth, chains, reused read buffer at unaligned offsets; crashes (stack overflow, abort) and stalls are found by the journal + child-process triage."
         .into();
     r.assumptions.push("a hang inside a parser would surface as a watchdog timeout (exit 2), not as a violation; TLV iteration is bounded by a step cap".into());
     let n = r.n(300_000, 8_000_000);
